@@ -9,6 +9,7 @@ mod der;
 mod desc;
 mod faultdrv;
 mod dndrv;
+mod importdrv;
 mod keydrv;
 mod keys;
 mod ossl;
@@ -16,6 +17,7 @@ mod pemx;
 mod strdrv;
 mod project;
 mod util;
+mod validate;
 mod verify;
 mod x509;
 
@@ -42,6 +44,7 @@ fn main() {
 		"keys" => keydrv::run_keys(&args[2], &args[3]),
 		"pem" => keydrv::run_pem(&args[2], &args[3]),
 		"sign-faults" => faultdrv::run_cases(&args[2], &args[3], &args[4]),
+		"import" => importdrv::run(&args[2], &args[3], &args[4], &args[5]),
 		"dn-cases" => dndrv::run_cases(&args[2], &args[3]),
 		"dn-random" => dndrv::run_random(&args[2], args[3].parse().unwrap(), args[4].parse().unwrap()),
 		other => {
